@@ -197,3 +197,15 @@ impl<T: AsyncRead + Unpin> BmpStream<T> {
         ))
     }
 }
+
+/// Verification hook (add-only): the framing step of a BMP connection,
+/// `bmp_read`, on any reader, with tracing off. Exposes, never alters,
+/// behaviour.
+#[cfg(feature = "verif-hooks")]
+pub async fn verif_bmp_read<T: AsyncRead + Unpin>(
+    rx: T,
+) -> Result<(T, Bytes), (T, std::io::Error)> {
+    bmp_read(rx, TracingMode::Off)
+        .await
+        .map(|(rx, msg, _trace_id)| (rx, msg))
+}
